@@ -7,6 +7,7 @@
 #![allow(dead_code)]
 mod conv;
 mod engine;
+mod fmt_table;
 mod gen;
 mod props;
 
